@@ -35,6 +35,20 @@ SKELETONS = {
     'update_from': ("UPDATE int1.t SET a = {0} FROM (SELECT b FROM int2.t2 WHERE y = {1}) AS s WHERE t.b = s.b AND t.c = {2}", 3),
     'model_join_sub': ("SELECT m.p FROM (SELECT a FROM int1.t WHERE x = {0}) AS t JOIN mindsdb.pred AS m WHERE m.q = {1}", 2),
     'where_subquery': ("SELECT a FROM int1.t WHERE x = {0} AND b IN (SELECT b FROM int2.t2 WHERE y = {1}) AND z = {2}", 3),
+    # a placeholder below every expression-holding node kind of the tree (EXISTS / NOT EXISTS hold their sub-query in two attributes; casts,
+    # window functions, sort / grouping keys, unary operators, scalar sub-queries in the select list, nested predicates)
+    'exists': ("SELECT a FROM int1.t WHERE x = {0} AND EXISTS (SELECT 1 FROM int1.t2 WHERE y = {1} AND z = {2}) AND w = {3}", 4),
+    'not_exists': ("SELECT a FROM int1.t WHERE NOT EXISTS (SELECT b FROM int1.t2 WHERE y = {0}) AND w = {1}", 2),
+    'exists_other_integration': ("SELECT a FROM int1.t WHERE EXISTS (SELECT 1 FROM int2.t2 WHERE y = {0}) AND w = {1}", 2),
+    'exists_nested': ("SELECT a FROM int1.t WHERE x IN (SELECT b FROM int1.t2 WHERE EXISTS (SELECT 1 FROM int1.t3 WHERE w = {0}) AND y = {1}) AND v = {2}", 3),
+    'delete_exists': ("DELETE FROM int1.t WHERE EXISTS (SELECT 1 FROM int1.t2 WHERE y = {0}) AND a = {1}", 2),
+    'cast': ("SELECT CAST({0} AS int) AS k, CAST(a AS char) FROM int1.t WHERE b = CAST({1} AS int)", 2),
+    'window': ("SELECT sum({0}) OVER (PARTITION BY a ORDER BY b) AS s, a FROM int1.t WHERE c = {1}", 2),
+    'group_order_expr': ("SELECT a FROM int1.t WHERE c = {0} GROUP BY a + {1} ORDER BY a + {2}", 3),
+    'unary_is_null': ("SELECT -(a + {0}) AS k, a FROM int1.t WHERE NOT ({1} = a) AND ({2} IS NULL OR b = {3})", 4),
+    'scalar_subquery_target': ("SELECT (SELECT max(b) FROM int1.t2 WHERE y = {0}) AS m, {1} AS k FROM int1.t WHERE x = {2}", 3),
+    'join_exists_model': ("SELECT t.a, m.p FROM int1.t AS t JOIN mindsdb.pred AS m WHERE t.x = {0} AND EXISTS (SELECT 1 FROM int1.t2 WHERE y = {1})", 2),
+    'union_exists': ("SELECT a FROM int1.t WHERE EXISTS (SELECT 1 FROM int1.t2 WHERE y = {0}) UNION SELECT a FROM int2.t WHERE y = {1}", 2),
 }
 LIT = [11, 12, 13, 14, 15, 16]
 VAL = [101, 102, 103, 104, 105, 106]
